@@ -325,20 +325,29 @@ func LastOnLine(p *load.Prog, r *oblig.Report, rule string, helper *ssa.Function
 		r.Unknown(rule, "anchor:comment-helper", "-", "helper not found")
 		return
 	}
-	// the helper's non-empty form
-	okPrefix := false
-	for _, si := range sprintfCalls(helper, "Sprintf") {
-		if strings.HasPrefix(si.format, " #") && !strings.Contains(si.format, "\n") {
-			okPrefix = true
-		} else {
-			r.Bad(rule, "comment-shape:"+load.FuncName(helper), p.Pos(si.call.Pos()), fmt.Sprintf("the source comment is built with format %q: it must start with \" #\" and stay on one line", si.format))
-			okPrefix = true
+	// the helper's non-empty form: every returned string is "" or starts with " #" and stays on one line
+	shapeConstruct := "comment-shape:" + load.FuncName(helper)
+	rts := ReturnTemplates(helper)
+	nonEmpty := 0
+	for _, t := range rts {
+		if len(t) == 0 {
+			continue
+		}
+		nonEmpty++
+		okT := t[0].Val == nil && strings.HasPrefix(t[0].Lit, " #")
+		for _, pc := range t {
+			if pc.Val == nil && strings.Contains(pc.Lit, "\n") {
+				okT = false
+			}
+		}
+		if !okT {
+			r.Bad(rule, shapeConstruct, p.Pos(helper.Pos()), fmt.Sprintf("the source comment is built as %q: it must start with \" #\" and stay on one line", TemplateString(t)))
 		}
 	}
-	if !okPrefix {
-		r.Unknown(rule, "comment-shape:"+load.FuncName(helper), p.Pos(helper.Pos()), "no constant-format Sprintf found in the helper")
-	} else if !hasRec(r, rule, "comment-shape:"+load.FuncName(helper)) {
-		r.OK(rule, "comment-shape:"+load.FuncName(helper), p.Pos(helper.Pos()), "constant-prefix", "non-empty comment starts with \" #\" and contains no line break")
+	if nonEmpty == 0 {
+		r.Unknown(rule, shapeConstruct, p.Pos(helper.Pos()), "no non-empty string returned by the helper could be read as a template")
+	} else if !hasRec(r, rule, shapeConstruct) {
+		r.OK(rule, shapeConstruct, p.Pos(helper.Pos()), "constant-prefix", "non-empty comment starts with \" #\" and contains no line break")
 	}
 	n := 0
 	for _, f := range funcs {
@@ -357,46 +366,76 @@ func LastOnLine(p *load.Prog, r *oblig.Report, rule string, helper *ssa.Function
 				}
 				okUse := true
 				for _, ref := range *refs {
-					if _, dbg := ref.(*ssa.DebugRef); dbg {
-						continue
-					}
-					// expected: MakeInterface → Store into the variadic slice of a Sprintf
-					mi, isMI := ref.(*ssa.MakeInterface)
-					if !isMI {
+					switch x := ref.(type) {
+					case *ssa.DebugRef, *ssa.MakeInterface:
+					case *ssa.BinOp:
+						if x.Op != token.ADD {
+							okUse = false
+						}
+					default:
 						okUse = false
-						r.Bad(rule, construct, p.Pos(ref.Pos()), "the source comment is used other than as a Sprintf operand")
-						continue
 					}
-					_ = mi
+					if !okUse {
+						r.Bad(rule, construct, p.Pos(ref.Pos()), "the source comment is used other than as an operand of a Sprintf or of a string concatenation")
+						break
+					}
 				}
 				if !okUse {
 					continue
 				}
-				found := false
-				for _, si := range sprintfCalls(f, "Sprintf") {
-					for ai, av := range si.args {
-						if av != ssa.Value(call) {
+				// every string built in f in which the comment occurs: nothing follows it on its line
+				found, bad := false, ""
+				for _, bb := range f.Blocks {
+					for _, in2 := range bb.Instrs {
+						v, isVal := in2.(ssa.Value)
+						if !isVal || !isStringType(v.Type()) {
 							continue
 						}
-						found = true
-						vp := verbPositions(si.format)
-						if ai >= len(vp) {
-							r.Bad(rule, construct, p.Pos(si.call.Pos()), "format has fewer verbs than operands")
+						switch x := in2.(type) {
+						case *ssa.Call:
+							if c := x.Common().StaticCallee(); c == nil || c.Pkg == nil || c.Pkg.Pkg.Path() != "fmt" {
+								continue
+							}
+						case *ssa.BinOp:
+							if x.Op != token.ADD {
+								continue
+							}
+						default:
 							continue
 						}
-						rest := si.format[vp[ai][1]:]
-						if nl := strings.IndexByte(rest, '\n'); nl >= 0 {
-							rest = rest[:nl]
-						}
-						if rest != "" {
-							r.Bad(rule, construct, p.Pos(si.call.Pos()), fmt.Sprintf("in format %q the source comment is followed by %q on the same line: everything after it becomes comment text", si.format, rest))
-						} else {
-							r.OK(rule, construct, p.Pos(si.call.Pos()), "last-verb-on-line", fmt.Sprintf("format %q", si.format))
+						for _, t := range Templates(v, helper) {
+							t = Normalise(t)
+							for i, pc := range t {
+								if pc.Val != ssa.Value(call) {
+									continue
+								}
+								found = true
+								rest := ""
+								for _, q := range t[i+1:] {
+									if q.Val != nil {
+										rest += "‹…›"
+										continue
+									}
+									if nl := strings.IndexByte(q.Lit, '\n'); nl >= 0 {
+										rest += q.Lit[:nl]
+										break
+									}
+									rest += q.Lit
+								}
+								if rest != "" {
+									bad = fmt.Sprintf("in %q the source comment is followed by %q on the same line: everything after it becomes comment text", TemplateString(t), rest)
+								}
+							}
 						}
 					}
 				}
-				if !found {
-					r.Bad(rule, construct, p.Pos(call.Pos()), "the source comment does not reach a constant-format Sprintf operand")
+				switch {
+				case bad != "":
+					r.Bad(rule, construct, p.Pos(call.Pos()), bad)
+				case found:
+					r.OK(rule, construct, p.Pos(call.Pos()), "last-on-line", "nothing follows the comment on its output line in any string it is built into")
+				default:
+					r.Bad(rule, construct, p.Pos(call.Pos()), "the source comment does not reach a Sprintf or concatenation that could be read as a template")
 				}
 			}
 		}
